@@ -154,10 +154,10 @@ theorem mulF_invF (g : Grp) (X : DVec ℝ) (hu : UnitQ g X) (hs : ScaleNZ g X) :
 /-- **group-valued outputs are read in the chart `Log(Y · Y₀⁻¹)`**: if `Y(t)` has left-perturbation tangent `τ`, its chart coordinates
 around `Y₀ = Y(0)` move with velocity `τ` — so the Jacobian of a group-valued program in the property's sense is its forward tangent. -/
 theorem chart_tangent (g : Grp) (eps : ℝ) (heps : 0 < eps) (Y : ℝ → DVec ℝ) (τ : DVec ℝ) (hτ : τ.length = g.adim)
-    (hY : GTangent g Y τ) (hu : UnitQ g (Y 0)) (hs : ScaleNZ g (Y 0)) :
+    (hY : GTangent g Y τ) (hu : UnitQ g (Y 0)) (hs : ScalePos g (Y 0)) :
     LCurve g.adim (fun t => chartF g eps (Y 0) (Y t)) τ := by
   have hm := mul_tangent g Y (fun _ => invF g (Y 0)) τ (DVec.zero g.adim) hτ (by simp [DVec.zero]) hY (gtangent_const g _) hu
   rw [mulVec_dzero _ (Shape_AdjMat g _), ← hτ, dadd_dzero] at hm
-  exact log_tangent_identity g eps heps (fun t => mulF g (Y t) (invF g (Y 0))) τ hτ hm (mulF_invF g (Y 0) hu hs)
+  exact log_tangent_identity g eps heps (fun t => mulF g (Y t) (invF g (Y 0))) τ hτ hm (mulF_invF g (Y 0) hu (scalePos_nz hs))
 
 end PP.AD
